@@ -128,8 +128,6 @@ def runStep (s : RunSt) (line : String) : RunSt × String :=
 
 structure JudgeSt where
   vx : Vacuum.St := {}
-  vreg : List (String × Nat) := []
-  vlast : Option Nat := none
   ex : Expire.St := {}
   accs : List Access := []
   scripts : Scripts := []
@@ -159,37 +157,20 @@ def judgeStep (s : JudgeSt) (op out : String) : JudgeSt :=
         else { s with bad := some ("live-stored-request-removed-by-cleanup:" ++ pctEnc out) }
       else { s with bad := some ("unparsable-sweep-answer:" ++ pctEnc out) }
     | _ => { s with bad := some ("unparsable-sweep-answer:" ++ pctEnc out) }
-  | "vcfg" :: _ =>
+  | "vcfg" :: _ | "vadd" :: _ =>
     match vStep s.vx (words op) with
-    | some v => { s with vx := v }
+    | some v => { s with vx := v }     -- only the clock bookkeeping and the ghost fields reg / lastPass are used below
     | none => { s with bad := some "unparsable-vacuum-op" }
-  | "vadd" :: r =>
-    match vStep s.vx (words op), kv r "k" with
-    | some v, some k =>
-      -- the first registration starts the goroutine, whose first pass runs at once (nothing is due)
-      let last := if s.vx.wakeAt.isNone then some s.vx.now else s.vlast
-      { s with vx := v, vlast := last, vreg := (pctDec k, s.vx.now + s.vx.ttl) :: s.vreg.filter (·.1 != pctDec k) }
-    | _, _ => { s with bad := some "unparsable-vacuum-op" }
-  | "vpass" :: r =>
-    match vStep s.vx (words op), kvNat r "adv" with
-    | some v, some adv =>
-      -- clock bookkeeping only: did a pass run, when was the first / the last one
-      let first := match s.vx.wakeAt with
-        | some w => if w ≤ s.vx.now + adv then some (max s.vx.now w) else none
-        | none => none
-      let last := match first, v.wakeAt with
-        | some _, some w' => some (w' - v.tick)
-        | _, _ => s.vlast
-      let reg := match first, kv r "add" with
-        | some p, some k => (pctDec k, p + s.vx.ttl) :: s.vreg.filter (·.1 != pctDec k)
-        | _, _ => s.vreg
-      let s := { s with vx := v, vreg := reg, vlast := last }
+  | "vpass" :: _ =>
+    match vStep s.vx (words op) with
+    | some v =>
+      let s := { s with vx := v }
       if out.startsWith "map=" then
         let ks := xKeys [("keys=" ++ (out.drop 4).toString)]
-        if Vacuum.notForgotten reg last ks then s
+        if Vacuum.holds v ks then s
         else { s with bad := some ("registered-key-never-vacuumed:" ++ pctEnc out) }
       else { s with bad := some ("unparsable-vacuum-answer:" ++ pctEnc out) }
-    | _, _ => { s with bad := some "unparsable-vacuum-op" }
+    | none => { s with bad := some "unparsable-vacuum-op" }
   | "retain-conc" :: _ => if out == "stable" then s else { s with bad := some ("lookup-answer-changed-by-another-transaction:" ++ pctEnc out) }
   | "retain" :: _ => if out == "stable" then s else { s with bad := some ("lookup-answer-changed-by-another-transaction:" ++ pctEnc out) }
   | "stress-sadd" :: _ => if out == "ok" then s else { s with bad := some ("atomic-core-bound-exceeded:" ++ pctEnc out) }
